@@ -305,6 +305,50 @@ def search(job):
     return {"failures": out, "tried": tried, "schemas": schemas, "exhausted": True}
 
 
+PAIR_VALUES = {
+    "type": ["integer", "string", ["integer", "string"]], "minimum": [2], "maximum": [0], "enum": [[1, "a"]], "required": [["a", "b"]],
+    "properties": [{"a": {"type": "integer"}, "b": {"type": "string"}}], "patternProperties": [{"^a": {"type": "integer"}}],
+    "additionalProperties": [False, {"type": "integer"}], "items": [{"type": "integer"}, [{"type": "integer"}, {"type": "string"}]],
+    "additionalItems": [False], "allOf": [[{"type": "integer"}, {"minimum": 2}]], "anyOf": [[{"type": "integer"}, {"type": "string"}]],
+    "oneOf": [[{"type": "integer"}, {"minimum": 2}]], "not": [{"type": "integer"}], "minItems": [2], "maxItems": [1], "minLength": [2],
+    "uniqueItems": [True], "dependencies": [{"a": ["b"]}], "extends": [[{"type": "integer"}, {"minimum": 2}]], "disallow": [["integer"]],
+    "const": [1], "contains": [{"type": "integer"}], "propertyNames": [{"maxLength": 1}], "if": [{"type": "integer"}],
+    "title": ["t"], "default": [1], "definitions": [{"x": {"type": "integer"}}], "minContains": [0, 2], "$comment": ["c"],
+    "then": [{"minimum": 5}], "else": [{"type": "null"}], "exclusiveMinimum": [True, 1], "divisibleBy": [2], "multipleOf": [2],
+}
+PAIR_INSTANCES = [None, True, 0, 1, 2, 1.5, "a", "abc", [], [1], [1, "a"], ["a", "b", 1], [1, 1], {}, {"a": 1}, {"a": "x", "b": 1}, {"ab": 1, "c": "x"}]
+
+
+def search_pairs(job):
+    """schemas with two keywords (incl. annotations and other-draft keywords): the dispatch level"""
+    root = job["root"]
+    jsonschema, validators = _load(root)
+    from spec import drafts
+    from spec.pyops import PyOps
+    out, tried = [], 0
+    mode = job.get("mode", "errors")
+    for d in job.get("drafts", (3, 4, 6, 7)):
+        cls = classes(validators)[d]
+        meta = json.load(open(root + "/jsonschema/schemas/draft%d.json" % d))
+        items = [(k, v) for k, vs in PAIR_VALUES.items() for v in vs]
+        for a in range(len(items)):
+            for b in range(a + 1, len(items)):
+                (k1, v1), (k2, v2) = items[a], items[b]
+                if k1 == k2:
+                    continue
+                for schema in ({k1: v1, k2: v2}, {k2: v2, k1: v1}):
+                    if not wf(d, schema, drafts, PyOps, meta):
+                        continue
+                    for x in PAIR_INSTANCES:
+                        tried += 1
+                        f = (judge_errors if mode == "errors" else judge)(d, cls, schema, x, validators, drafts, PyOps, meta)
+                        if f is not None:
+                            out.append(f)
+                            if len(out) >= job.get("limit", 3):
+                                return {"failures": out, "tried": tried}
+    return {"failures": out, "tried": tried}
+
+
 def replay(job):
     root = job["root"]
     jsonschema, validators = _load(root)
@@ -329,7 +373,7 @@ def replay(job):
 
 def main():
     job = json.load(sys.stdin)
-    res = {"search": search, "replay": replay}[job["cmd"]](job)
+    res = {"search": search, "replay": replay, "search_pairs": search_pairs}[job["cmd"]](job)
     json.dump(res, sys.stdout)
 
 
